@@ -815,6 +815,11 @@ func (t *blockTree) parseStartingMarkers(line string, newParagraph bool) (string
 
 		indent := len(marker)
 		if strings.Trim(line[len(marker):], " \t") == "" {
+			if !newParagraph {
+				// An empty list item cannot interrupt a paragraph, whether or
+				// not the marker is followed by spaces.
+				break
+			}
 			// Rule #3 applies: indent is exactly one space, regardless of how
 			// many spaces there actually are, which can be 0.
 			indent = len(strings.TrimRight(marker, " \t")) + 1
